@@ -175,8 +175,8 @@ def run(ctx):
     ctx.rule("R10.dimsize", "ncmpi_def_dim per-format limits")
     ctx.rule("R12.narrow", "64->32 bit conversions in geometry functions are range-guarded")
     ctx.rule("R12.cmp", "sort comparators do not return truncated 64-bit differences")
-    ctx.assume("correctness of the decision over all variable sequences and data placement at large offsets are not "
-               "decided; the intra-node aggregation layer is outside R12.narrow")
+    ctx.assume("the decision over variable sequences is decided for lists of up to 4 variables (R8.vlens); data placement at "
+               "large offsets is not decided; the intra-node aggregation layer is outside R12.narrow")
     prog = ctx.program(groups=["lib"])
     check_vlenmax(ctx, prog)
     check_onelarge(ctx, prog)
@@ -188,3 +188,22 @@ def run(ctx):
     ctx.rule("R8.subarray", "type_create_subarray64 builds the type map of MPI_Type_create_subarray for dimensions beyond 2^31-1 (bounded)")
     ns = r8subarray.check(ctx, ctx.need_fn(prog, "type_create_subarray64"), "R8.subarray")
     ctx.require(ns >= 100, "R8.subarray: only %d requests evaluated" % ns)
+    from rules import r8vlens
+    ctx.rule("R8.vlens", "ncmpio_NC_check_vlens decides every list of up to 4 fixed / record, small / too-large variables in the "
+             "three formats as the format rule does (bounded: 1023 cases)")
+    ev = None
+    for u in prog.units.values():
+        if "NC_EVARSIZE" in u.macros:
+            try:
+                ev = int(u.macros["NC_EVARSIZE"].strip("() "), 0)
+            except ValueError:
+                continue
+            break
+    ctx.require(ev is not None and ev < 0, "NC_EVARSIZE not found")
+    nv = r8vlens.check(ctx, ctx.need_fn(prog, "ncmpio_NC_check_vlens"), "R8.vlens", ev)
+    ctx.require(nv >= 1000, "R8.vlens: only %d cases evaluated" % nv)
+    from rules import r8begins
+    ctx.rule("R8.begins", "NC_begins, evaluated with unbounded integers on every list of up to 3 variables the size rule accepts: an "
+             "accepted layout has representable, ordered, non-overlapping begins (bounded)")
+    nb = r8begins.check(ctx, ctx.need_fn(prog, "NC_begins"), "R8.begins", deep=(ctx.tier == "thorough"))
+    ctx.require(nb >= 1000, "R8.begins: only %d layouts evaluated" % nb)
